@@ -497,10 +497,24 @@ func runC10(t *testing.T, c *hsCase) (res c10Result) {
 			res.staleSynLoop = n >= 3 && all
 		}
 		if viol == "" && !converged {
-			for _, lc := range liveConn {
+			for i, lc := range liveConn {
 				if lc != nil {
 					if w := lc.VerifWindow(); w.Size >= w.N {
-						res.fullWindow = true
+						// ... and its peer is really gone: nothing was handed
+						// to it during the second half of the waiting period
+						// (with a peer that still answers, a full window is
+						// something else than the recorded dead-peer finding)
+						in := map[int]string{0: "s2c", 1: "c2s"}[i]
+						quietSince := tr.Now() - (5 * unit).Microseconds()
+						heard := false
+						for _, e := range tr.Snapshot() {
+							if e.Ev == "recv" && e.Dir == in && e.T >= quietSince {
+								heard = true
+							}
+						}
+						if !heard {
+							res.fullWindow = true
+						}
 					}
 				}
 			}
